@@ -608,3 +608,128 @@ Proof.
     apply reach_runx; [reflexivity|constructor].
   - vm_compute. repeat split.
 Qed.
+
+(* ---------------------------------------------------------------- a peer that repeats frames verbatim *)
+(* [processed s q r n]: the NEW_CONNECTION_ID(q, r, length n) frame gets past the validity checks in state s *)
+Definition processed (s : st) (q r n : Z) : bool :=
+  match closed s, pkt s with
+  | None, Some _ => negb ((n =? 0) || (n >? CONNECTION_ID_MAX_SIZE)) && negb (r >? q)
+  | _, _ => false
+  end.
+
+Definition hist_step (s : st) (o : op) (H : list (Z * Z)) : list (Z * Z) :=
+  match o with
+  | RecvNewCid q r n => if processed s q r n then (q, r) :: H else H
+  | _ => H
+  end.
+
+(* the peer never sends two NEW_CONNECTION_ID frames with the same sequence number but different retire_prior_to
+   (RFC 9000 19.15: retransmissions carry the same content) *)
+Definition verbatim (H : list (Z * Z)) (o : op) : Prop :=
+  match o with
+  | RecvNewCid q r _ => forall r0, In (q, r0) H -> r0 = r
+  | _ => True
+  end.
+
+Inductive reachH (c : bool) (l : Z) : st -> bool -> list (Z * Z) -> Prop :=
+| reachH_init : reachH c l (handshake_complete (init c) l) false []
+| reachH_step s x H o : reachH c l s x H -> legit s o -> verbatim H o ->
+    reachH c l (snd (step s o)) (x || is_exn (fst (step s o))) (hist_step s o H).
+
+Lemma reachH_reach c l s x H : reachH c l s x H -> reach c l s x.
+Proof. induction 1; [constructor|now apply reach_step]. Qed.
+
+Lemma change_cid_seen_rpt s : seen (change_cid s) = seen s /\ rpt (change_cid s) = rpt s.
+Proof. unfold change_cid. destruct (avail s); cbn; auto. Qed.
+
+Lemma step_other_seen_rpt s o : (forall q r n, o <> RecvNewCid q r n) ->
+  seen (snd (step s o)) = seen s /\ rpt (snd (step s o)) = rpt s.
+Proof.
+  intros Hn. destruct o; cbn [step].
+  - unfold handshake_complete, replenish. destruct (replenish_loop _ _ _ _). cbn. auto.
+  - unfold recv_packet. destruct (closed s); [cbn; auto|]. destruct (_ && _); cbn; auto.
+  - exfalso. eapply Hn. reflexivity.
+  - unfold recv_retire. destruct (closed s); [cbn; auto|]. destruct (pkt s); [|cbn; auto].
+    destruct (_ >=? _); [cbn; auto|]. destruct (_ && _); [cbn; auto|]. cbn [snd]. unfold replenish.
+    destruct (replenish_loop _ _ _ _). cbn. auto.
+  - unfold packet_done. destruct (closed s); [cbn; auto|]. destruct (pkt s); [|cbn; auto].
+    destruct (_ && _); cbn; [apply change_cid_seen_rpt|auto].
+  - cbn. apply change_cid_seen_rpt.
+  - destruct (closed s); cbn; auto.
+  - unfold retire_delivery. destruct acked; cbn; auto.
+  - unfold newcid_delivery. destruct acked; cbn; auto.
+Qed.
+
+Lemma newcid_seen_rpt s q r n :
+  let s' := snd (recv_newcid s q r n) in
+  (processed s q r n = false -> seen s' = seen s /\ rpt s' = rpt s) /\
+  (processed s q r n = true -> rpt s' = Z.max r (rpt s) /\ (forall a, In a (seen s') -> In a (seen s) \/ a = q)).
+Proof.
+  unfold processed, recv_newcid. cbn zeta.
+  destruct (closed s); [cbn; split; [auto|discriminate]|]. destruct (pkt s); [|cbn; split; [auto|discriminate]].
+  destruct ((n =? 0) || (n >? CONNECTION_ID_MAX_SIZE)); [cbn; split; [auto|discriminate]|].
+  destruct (r >? q); [cbn; split; [auto|discriminate]|]. split; [cbn; discriminate|]. intros _.
+  assert (S : forall a, In a (if (q >=? Z.max r (rpt s)) && negb (memz q (seen s)) then seen s ++ [q] else seen s) ->
+                        In a (seen s) \/ a = q).
+  { intros a. destruct (_ && _); [|tauto]. intros Ha. apply in_app_or in Ha. destruct Ha as [?|[?|[]]]; auto. }
+  destruct (cur s <? Z.max r (rpt s)).
+  - match goal with |- context [match ?a2 with [] => _ | _ => _ end] => destruct a2 as [|a t] end; [cbn; auto|].
+    destruct (1 + Zlen _ >? _); [cbn; auto|]. destruct (Zlen _ >? _); cbn; auto.
+  - destruct (1 + Zlen _ >? _); [cbn; auto|]. destruct (Zlen _ >? _); cbn; auto.
+Qed.
+
+Lemma reachH_inv c l s x H : reachH c l s x H ->
+  0 <= rpt s /\
+  (forall q r, In (q, r) H -> r <= rpt s) /\ (forall q, In q (seen s) -> q = 0 \/ exists r0, In (q, r0) H).
+Proof.
+  induction 1 as [|s x H o R [J0 [J1 J2]] Lg V].
+  - unfold handshake_complete, replenish. destruct (replenish_loop _ _ _ _). cbn. split; [lia|]. split; [tauto|]. intros q [E|[]]. now left.
+  - destruct o as [lim|d|q r n|q0| | | |q0 a0|q0 a0];
+      try (match goal with |- context [step s ?o] =>
+             destruct (step_other_seen_rpt s o) as [E1 E2]; [intros; discriminate|] end;
+           rewrite E1, E2; cbn [hist_step]; repeat split; assumption).
+    cbn [step hist_step]. pose proof (newcid_seen_rpt s q r n) as [N1 N2]. cbn zeta in N1, N2.
+    destruct (processed s q r n).
+    + destruct (N2 eq_refl) as [E2 S]. rewrite E2. split; [lia|]. split.
+      * intros q' r' [E|Hin]; [inversion E; subst; lia|]. specialize (J1 _ _ Hin). lia.
+      * intros a Ha. destruct (S a Ha) as [Hs|E].
+        -- destruct (J2 a Hs) as [?|[r0 ?]]; [now left|right; exists r0; now right].
+        -- subst a. right. exists r. now left.
+    + destruct (N1 eq_refl) as [E1 E2]. rewrite E1, E2. auto.
+Qed.
+
+(* a peer that repeats NEW_CONNECTION_ID frames verbatim can never make _consume_peer_cid pop an empty list *)
+Lemma verbatim_peer_no_exn c l s H : reachH c l s false H ->
+  forall o, legit s o -> verbatim H o -> is_exn (fst (step s o)) = false.
+Proof.
+  intros R o Lg V. destruct (is_exn (fst (step s o))) eqn:E; [exfalso|reflexivity].
+  destruct (only_newcid_raises _ _ E) as [q [r [n Eo]]]. subst o. cbn [step] in E. cbn [verbatim] in V.
+  pose proof (reachH_reach _ _ _ _ _ R) as R'.
+  assert (Ex : fst (recv_newcid s q r n) = OExnIndex) by (destruct (fst (recv_newcid s q r n)); cbn in E; congruence).
+  destruct (proj1 (consume_empty_iff c l s q r n R') Ex) as [_ [_ [_ [Hrq [Hc [_ Hs]]]]]].
+  destruct (reachH_inv _ _ _ _ _ R) as [J0 [J1 J2]]. destruct (dcid_not_retired_l _ _ _ R') as [A _].
+  destruct (J2 q Hs) as [E0|[r0 Hin]]; [lia|]. rewrite (V r0 Hin) in Hin. specialize (J1 _ _ Hin). lia.
+Qed.
+
+Lemma verbatim_reach_no_exn c l s x H : reachH c l s x H -> x = false.
+Proof.
+  induction 1 as [|s x H o R IH Lg V]; [reflexivity|]. subst x.
+  now rewrite (verbatim_peer_no_exn _ _ _ _ R o Lg V).
+Qed.
+
+Lemma dcid_not_retired_verbatim c l s x H : reachH c l s x H ->
+  rpt s <= cur s /\ Forall (fun q => rpt s <= q) (avail s) /\ rpt s <= fst (fst (fst (send s))).
+Proof.
+  intros R. pose proof (verbatim_reach_no_exn _ _ _ _ _ R). subst x.
+  apply (dcid_not_retired_l c l). now apply (reachH_reach _ _ _ _ H).
+Qed.
+
+Example reachH_nontrivial : exists s x H, reachH true 8 s x H /\ x = false /\ H = [(2, 2)] /\ cur s = 2.
+Proof.
+  eexists. eexists. eexists. split.
+  - eapply (reachH_step true 8 _ _ _ (RecvNewCid 2 2 8)).
+    + eapply (reachH_step true 8 _ _ _ (RecvPacket 0)); [constructor|exact I|exact I].
+    + exact I.
+    + cbn. tauto.
+  - vm_compute. repeat split; reflexivity.
+Qed.
